@@ -1,8 +1,9 @@
 // Driver for C03: a man in the middle between two REAL endpoints applies exactly one edit
-// per run (flip a byte, drop / duplicate / swap / truncate / inject a record) and the driver
+// per run (flip a byte, drop / duplicate / swap / truncate / inject a record, close the transport
+// at a record boundary) and the driver
 // writes what both endpoints concluded.  The Lean oracle (model + spec) judges every line.
 //
-// case     : stack= suite= auth= resume= edit= [dir= rec= off= mask= inj=]  (the identity of the case)
+// case     : stack= suite= auth= resume= edit= [dir= rec= off= mask= inj= mode=]  (the identity of the case)
 //
 //	[rtype= msg= field= orig=]                                      (resolved on the real record)
 //
@@ -347,7 +348,7 @@ func describe(n *mnet, cf config, dtls bool) string {
 	if ed.kind == "none" {
 		return ""
 	}
-	if ed.kind == "inject" {
+	if ed.kind == "inject" || ed.kind == "cut" {
 		// name the point by the record that precedes it
 		if ed.rec == 0 {
 			return "rtype=- msg=start field=-"
@@ -389,6 +390,10 @@ func describe(n *mnet, cf config, dtls bool) string {
 		}
 		return fmt.Sprintf("rtype=%s msg=%s field=%s at=%d del=%d ins=%s fix=%s cookie=%s", fm.rtype, msg, name,
 			ed.off, ed.del, hexOrDash(ed.ins), fixString(ed.fix), cookie)
+	}
+	if ed.kind == "drop" && fm.rtype == "hs" && len(fm.msgs) > 0 && fm.msgs[0].cookieLen >= 0 {
+		// a datagram ClientHello: with or without cookie (the cookie-less one belongs to the prelude)
+		return fmt.Sprintf("rtype=%s msg=%s field=- cookie=%d", fm.rtype, fm.msg, fm.msgs[0].cookieLen)
 	}
 	return fmt.Sprintf("rtype=%s msg=%s field=-", fm.rtype, fm.msg)
 }
@@ -520,6 +525,8 @@ func (j job) ident() string {
 		s += fmt.Sprintf(" dir=%s rec=%d m=%d op=%s", dirName(j.ed.dir), j.ed.rec, j.ed.m, j.ed.op)
 	case "inject":
 		s += fmt.Sprintf(" dir=%s rec=%d inj=%s", dirName(j.ed.dir), j.ed.rec, j.ed.inj)
+	case "cut":
+		s += fmt.Sprintf(" dir=%s rec=%d mode=%s", dirName(j.ed.dir), j.ed.rec, j.ed.mode)
 	default:
 		s += fmt.Sprintf(" dir=%s rec=%d", dirName(j.ed.dir), j.ed.rec)
 	}
@@ -557,6 +564,7 @@ func parseJob(desc string) (job, bool) {
 		j.ed.mask = byte(mv)
 	}
 	j.ed.inj, _ = hx.KV(desc, "inj")
+	j.ed.mode, _ = hx.KV(desc, "mode")
 	return j, j.ed.kind != ""
 }
 
@@ -631,10 +639,10 @@ func run(j job) (string, string) {
 	if j.ed.kind == "none" {
 		obs += " lay=" + o.lay
 	}
-	if (j.ed.kind == "flip" || j.ed.kind == "setlen" || j.ed.kind == "splice") && o.net != nil {
+	if (j.ed.kind == "flip" || j.ed.kind == "setlen" || j.ed.kind == "splice" || j.ed.kind == "drop") && o.net != nil {
 		obs += fmt.Sprintf(" same=%d", sameKind(o.net, j.ed.dir, j.cf.stack == "dtlcp"))
 	}
-	if j.ed.kind == "splice" && o.net != nil {
+	if (j.ed.kind == "splice" || j.ed.kind == "drop") && o.net != nil {
 		obs += fmt.Sprintf(" hvr=%d", countHVR(o.net, j.cf.stack == "dtlcp"))
 	}
 	return id, obs
@@ -743,6 +751,14 @@ func generate(cf config, base outcome, tier string, rnd *hx.Rand) []job {
 		for at := 0; at <= len(recs); at++ {
 			for _, k := range injs {
 				jobs = append(jobs, job{cf: cf, ed: edit{kind: "inject", dir: d, rec: at, inj: k}})
+			}
+		}
+		// the transport is CLOSED at a record boundary: after every record of this direction (and
+		// before the first), with the writers' later writes failing (hard), vanishing (soft), or
+		// only this direction closed (half)
+		for at := 0; at <= len(recs); at++ {
+			for _, m := range []string{"hard", "soft", "half"} {
+				jobs = append(jobs, job{cf: cf, ed: edit{kind: "cut", dir: d, rec: at, mode: m}})
 			}
 		}
 	}
